@@ -66,6 +66,13 @@ Fixpoint sig_scale (c : T) (s : sig) : sig :=
   | SPair a b => SPair (sig_scale c a) (sig_scale c b)
   end.
 
+Fixpoint sig_scale_l (c : T) (s : sig) : sig :=      (* c * sigma, as written in proximal_composition *)
+  match s with
+  | SScal s => SScal (c * s)
+  | SVec v => SVec (map (fun a => c * a) v)
+  | SPair a b => SPair (sig_scale_l c a) (sig_scale_l c b)
+  end.
+
 (* ------------------------------------------------------------ norms, weighted *)
 Definition winner (w x y : list T) : T := wdot w x y.
 Definition wnormsq (w x : list T) : T := wdot w x x.
@@ -241,7 +248,7 @@ Definition prox_quad_pert (pf : factory) (a : T) (u : option (list T)) : factory
     | SScal sg =>
         let c := none_ / nsqrt (sg * of_Z 2 * a + none_) in
         let inner := match u with
-                     | Some u => vlin c x (- (sg * c)) u
+                     | Some u => vsub (vscal c x) (vscal (sg * c) u)
                      | None => vscal c x end in
         rmap (vscal c) (prox_arg_scaling pf c s inner)
     | _ => Err EOther
@@ -270,7 +277,7 @@ Definition prox_composition (pf : factory) (ncols : nat) (A : list (list T)) (mu
   fun s x =>
     let ax := mvec A x in
     rmap (fun q => vadd x (vscal (none_ / mu) (mvec (transpose ncols A) (vsub q ax))))
-         (pf (sig_scale mu s) ax).
+         (pf (sig_scale_l mu s) ax).
 
 (* ============================================================================
    Functionals: leaves (default_functionals.py) and derived (functional.py)
